@@ -375,7 +375,8 @@ def IR.delete (ir : IR) (bId offset length : Nat) (toProxy : Bool) : Except Err 
               | .ok (ir3, _) => .ok (ir3, none)
             else .ok (ir2, none)
 
-/-- `_add_other_section_contents` (for one non-text section of the patch) -/
+/-- `_add_other_section_contents` (for one non-text section of the patch); the zero-sized block the
+assembler leaves at the end is dropped, together with what the tables say about it -/
 def IR.addOtherSection (ir : IR) (p : Patch) (s : PatchSect) (sectId biId : Nat) : Except Err (IR × List Sym) :=
   let lastEmpty := (s.blocks.getLast?.map (·.size == 0)).getD false
   let blocks := if lastEmpty then s.blocks.dropLast else s.blocks
@@ -396,9 +397,20 @@ def IR.addOtherSection (ir : IR) (p : Patch) (s : PatchSect) (sectId biId : Nat)
       if ir.aux.omaps.any (fun (n, _) => n == "symbolicExpressionSizes") then
         ir.aux.omaps.map (fun (n, es) => if n == "symbolicExpressionSizes" then (n, es ++ sizes) else (n, es))
       else ir.aux.omaps ++ [("symbolicExpressionSizes", sizes)]
-    let al := s.alignment.foldl (fun a (k, v) => aset k v a) ir.aux.alignment
-    let en := s.blockTypes.foldl (fun a (k, v) => aset k v a) ir.aux.encodings
-    let aux1 : Aux := { ir.aux with omaps := omaps, alignment := al, encodings := en }
+    -- what the tables say about the dropped last block: its directives (copied into the table by
+    -- `insert` before) move to the end of the block in front, nothing else keeps mentioning it
+    let prevSize := ((s.blocks.dropLast).getLast?.map (·.size)).getD 0
+    let dropped := ((sortGroups (cfiGet ir.aux.cfi lastId)).map (·.2)).flatten
+    let cfi :=
+      if lastEmpty then
+        let cfi0 := cfiDelBlock ir.aux.cfi lastId
+        if s.blocks.length > 1 && !dropped.isEmpty then cfiExtend cfi0 prevId prevSize dropped else cfi0
+      else ir.aux.cfi
+    let sal := if lastEmpty then s.alignment.filter (·.1 != lastId) else s.alignment
+    let sbt := if lastEmpty then s.blockTypes.filter (·.1 != lastId) else s.blockTypes
+    let al := sal.foldl (fun a (k, v) => aset k v a) ir.aux.alignment
+    let en := sbt.foldl (fun a (k, v) => aset k v a) ir.aux.encodings
+    let aux1 : Aux := { ir.aux with omaps := omaps, alignment := al, encodings := en, cfi := cfi }
     let ir1 : IR := { ir with intervals := ir.intervals ++ [bi], blocks := ir.blocks ++ newBlocks, aux := aux1 }
     .ok (ir1.orderAppend sectId (newBlocks.map (·.id)), syms)
 
